@@ -11,6 +11,7 @@
 """
 import json, os, math
 from .common import Infra, VERIF
+from . import sitecov
 
 GEN_FUNCTIONS = ['calculate_lm', 'moveTimeLM', 'move_dist_lt']
 RULE = ('structured generators per model path (constant rate; no reversal; reversal at tau=0,1,2,>=3 with first-tick '
@@ -18,7 +19,8 @@ RULE = ('structured generators per model path (constant rate; no reversal; rever
         'exact boundary hits: accumulator solved so that the total lands on/next to a multiple of 2^31 at a chosen tick; '
         'symmetric reversals returning to the start value; near-double roots; legacy negative steps; maximal magnitudes; '
         'accumulator given/clear), an exhaustive small box, and random cases; a case is non-trivial when it is inside '
-        'the property domain and not one of the (0,0,0) requests; distinct by input tuple')
+        'the property domain and not one of the (0,0,0) requests; distinct by input tuple; plus the "sitecov" stream: every '
+        'comparison of the CURRENT calculate_lm source driven to lhs == rhs, +-1 and both outcomes (harness/sitecov.py)')
 TRUSTED = ['translator/pynum2lean.py and Rounding.ieee (validated by this correspondence run: Gen(ieee) = CPython/mpmath on every case)',
            'exact integer model C03.calculate_lm tied to the regenerated source by the proved bridge C03_bridge (under Contract R) and, independently, by correspondence (model = Gen(ieee) = implementation on every case)',
            'EBB firmware behaviour = the recurrence of Model/Firmware.lean (taken from the property statement)',
@@ -429,9 +431,33 @@ def load_replay(path):
     return out
 
 
+SITECOV_ONLY = bool(os.environ.get('SITECOV_ONLY'))   # experiment: only the random family + the sitecov stream
+SITECOV_OFF = bool(os.environ.get('SITECOV_OFF'))     # experiment control: no sitecov stream
+ENV = 2 ** 32                                         # magnitude envelope of the command fields (see ASSUMPTIONS)
+
+
+def in_domain(c):
+    """the property's quantifier on (steps, rate, accel, accum), inside the claimed envelope"""
+    steps, rate, accel, acc = c
+    if not all(type(x) is int for x in (steps, rate, accel)) or not (acc == 'clear' or type(acc) is int):
+        return False
+    if abs(rate) > ENV or abs(accel) > ENV:
+        return False
+    return required(steps, rate, accel, acc)[0] in ('ok', 'degenerate')
+
+
 def build_cases(ctx):
     rng = ctx.rng
     cases = []
+    if SITECOV_ONLY:
+        if getattr(ctx, 'replay', None):
+            cases += load_replay(ctx.replay)
+        tmp = []
+        for _ in range(ctx.n(3000)):
+            gen_random(rng, tmp)
+        ctx.notes.append('SITECOV_ONLY: corpus, small box and the structured boundary generators are disabled; inputs = the '
+                         'random family + the sitecov stream')
+        return cases + tmp, len(cases)
     cases += load_corpus()
     if getattr(ctx, 'replay', None):
         cases += load_replay(ctx.replay)
@@ -451,61 +477,6 @@ def build_cases(ctx):
     for _ in range(ctx.n(40)):
         cases.append((rng.choice([0, -rng.randint(1, 9)]), -rng.randint(0, 10 ** 6), rng.randint(-10 ** 6, 10 ** 6), rand_acc(rng)))
     return cases, ncorp
-
-
-# ----------------------------------------------------------------------------------------------
-# comparison-site coverage of the *current* source (adaptive: sites are found by parsing the source now)
-# ----------------------------------------------------------------------------------------------
-class Sites:
-    def __init__(self):
-        self.info = {}      # id -> [source text, seen_true, seen_false, min |lhs-rhs| over numeric operands]
-
-    def probe(self, sid, lhs, rhs, res):
-        e = self.info[sid]
-        if res:
-            e[1] += 1
-        else:
-            e[2] += 1
-        try:
-            d = abs(lhs - rhs)
-            if e[3] is None or d < e[3]:
-                e[3] = d
-        except Exception:
-            pass
-        return res
-
-
-def instrumented_twin(module, fname, sites):
-    """compile a copy of `module.fname` in which every single-operator comparison reports to `sites` (no change to the repo)"""
-    import ast, inspect, operator
-    ops = {ast.Eq: operator.eq, ast.NotEq: operator.ne, ast.Lt: operator.lt, ast.LtE: operator.le, ast.Gt: operator.gt,
-           ast.GtE: operator.ge}
-    src = inspect.getsource(getattr(module, fname))
-    tree = ast.parse(src)
-
-    class T(ast.NodeTransformer):
-        def visit_Compare(self, node):
-            self.generic_visit(node)
-            if len(node.ops) != 1 or type(node.ops[0]) not in ops:
-                return node
-            sid = len(sites.info)
-            sites.info[sid] = [f'L{node.lineno}: ' + ast.unparse(node), 0, 0, None]
-            call = ast.Call(func=ast.Name(id='__cmp', ctx=ast.Load()),
-                            args=[ast.Constant(sid), ast.Constant(type(node.ops[0]).__name__), node.left, node.comparators[0]],
-                            keywords=[])
-            return ast.copy_location(call, node)
-
-    tree = ast.fix_missing_locations(T().visit(tree))
-    names = {ast.Eq.__name__: operator.eq, ast.NotEq.__name__: operator.ne, ast.Lt.__name__: operator.lt,
-             ast.LtE.__name__: operator.le, ast.Gt.__name__: operator.gt, ast.GtE.__name__: operator.ge}
-
-    def cmp(sid, opname, lhs, rhs):
-        return sites.probe(sid, lhs, rhs, names[opname](lhs, rhs))
-
-    env = dict(vars(module))
-    env['__cmp'] = cmp
-    exec(compile(tree, f'<instrumented {fname}>', 'exec'), env)
-    return env[fname]
 
 
 # ----------------------------------------------------------------------------------------------
@@ -538,133 +509,136 @@ def run(ctx):
             seen.add(c)
             uniq.append(c)
     cases = uniq
-    dps_of = [rng.choice([5, 15, 30, 50]) for _ in cases]
-    reqs = [required(*c) for c in cases]
+    st = {'bf_checked': 0, 'bf_long': 0, 'n_feed': 0, 'n_skipfeed': 0, 'valid': []}
 
-    lines, slots = [], []
-    if ctx.driver:
+    def pipeline(cases, ncorp):
+        """driver (Gen, model, Spec), oracle self-validation, real code, correspondence, oracle - for one list of cases"""
+        dps_of = [rng.choice([5, 15, 30, 50]) for _ in cases]
+        reqs = [required(*c) for c in cases]
+
+        lines, slots = [], []
+        if ctx.driver:
+            for i, (c, dps, rq) in enumerate(zip(cases, dps_of, reqs)):
+                s, r, a, acc = c
+                lines.append(f'gen calculate_lm {dps} {s} {r} {a} {acc}'); slots.append((i, 'gen'))
+                lines.append(f'c03 model {s} {r} {a} {acc}'); slots.append((i, 'model'))
+                if acc == 'clear':
+                    lines.append(f'gen moveTimeLM {dps} {r} {s} {a}'); slots.append((i, 'gentime'))
+                if rq[0] == 'ok' and rq[3] <= 600:
+                    lines.append(f'c03 spec {s} {r} {a} {acc} {rq[3] + 3}'); slots.append((i, 'spec'))
+                if rq[0] == 'ok' and rq[3] <= 12 and i % 7 == 0:
+                    lines.append(f'c03 specdef {s} {r} {a} {acc} {rq[3] + 2}'); slots.append((i, 'specdef'))
+            answers = ctx.driver.batch(lines)
+        else:
+            answers = []
+        drv = [dict() for _ in cases]
+        for (i, k), ans in zip(slots, answers):
+            drv[i][k] = ans
+
         for i, (c, dps, rq) in enumerate(zip(cases, dps_of, reqs)):
-            s, r, a, acc = c
-            lines.append(f'gen calculate_lm {dps} {s} {r} {a} {acc}'); slots.append((i, 'gen'))
-            lines.append(f'c03 model {s} {r} {a} {acc}'); slots.append((i, 'model'))
-            if acc == 'clear':
-                lines.append(f'gen moveTimeLM {dps} {r} {s} {a}'); slots.append((i, 'gentime'))
-            if rq[0] == 'ok' and rq[3] <= 600:
-                lines.append(f'c03 spec {s} {r} {a} {acc} {rq[3] + 3}'); slots.append((i, 'spec'))
-            if rq[0] == 'ok' and rq[3] <= 12 and i % 7 == 0:
-                lines.append(f'c03 specdef {s} {r} {a} {acc} {rq[3] + 2}'); slots.append((i, 'specdef'))
-        answers = ctx.driver.batch(lines)
-    else:
-        answers = []
-        ctx.notes.append('driver unavailable: oracle runs on the implementation alone')
-    drv = [dict() for _ in cases]
-    for (i, k), ans in zip(slots, answers):
-        drv[i][k] = ans
-
-    bf_checked = bf_long = 0
-    n_feed = n_skipfeed = 0
-    sites = Sites()
-    try:
-        twin = instrumented_twin(ebb_calc, 'calculate_lm', sites)
-    except Exception as ex:      # never let the instrumenter decide a verdict
-        twin = None
-        ctx.notes.append(f'comparison-site instrumenter unavailable: {ex!r}')
-    for i, (c, dps, rq) in enumerate(zip(cases, dps_of, reqs)):
-        steps, rate, accel, acc = c
-        status, want, mv, T = rq
-        I = inp(c)
-        # ---- oracle self-validation: closed form + bisection against the tick-by-tick simulation ----
-        if status == 'ok' and (T <= BF_CAP or (T <= BF_LONG and bf_long < (40 if ctx.tier == 'quick' else 400) and rng.random() < 0.02)):
-            bf = brute_first_tick(mv.n, mv.rate, mv.accel, mv.a0, T + 5)
-            if bf != ('ok',) + want:
-                raise Infra(f'oracle inconsistency (closed form vs simulation) on {c}: {bf} vs {want}')
-            bf_checked += 1
-            bf_long += T > BF_CAP
-        elif status.startswith('out-of-domain:rate') and T <= BF_CAP:
-            bf = brute_first_tick(mv.n, mv.rate, mv.accel, mv.a0, T + 5)
-            if bf[0] != 'range':
-                raise Infra(f'oracle inconsistency (range) on {c}: {bf}')
-        # ---- the implementation ----
-        mpmath.mp.dps = dps
-        try:
-            got = ebb_calc.calculate_lm(steps, rate, accel, acc)
-            got = tuple(int(x) for x in got)
-            exc = None
-        except Exception as ex:
-            got, exc = None, ex
-        impl_s = 'raised ' + repr(exc) if exc else ' '.join(str(x) for x in got)
-        if twin is not None and status in ('ok', 'degenerate') and (i < 6000 or i % 5 == 0):
+            steps, rate, accel, acc = c
+            status, want, mv, T = rq
+            I = inp(c)
+            # ---- oracle self-validation: closed form + bisection against the tick-by-tick simulation ----
+            if status == 'ok' and (T <= BF_CAP or (T <= BF_LONG and st['bf_long'] < (40 if ctx.tier == 'quick' else 400) and rng.random() < 0.02)):
+                bf = brute_first_tick(mv.n, mv.rate, mv.accel, mv.a0, T + 5)
+                if bf != ('ok',) + want:
+                    raise Infra(f'oracle inconsistency (closed form vs simulation) on {c}: {bf} vs {want}')
+                st['bf_checked'] += 1
+                st['bf_long'] += T > BF_CAP
+            elif status.startswith('out-of-domain:rate') and T <= BF_CAP:
+                bf = brute_first_tick(mv.n, mv.rate, mv.accel, mv.a0, T + 5)
+                if bf[0] != 'range':
+                    raise Infra(f'oracle inconsistency (range) on {c}: {bf}')
+            # ---- the implementation ----
             mpmath.mp.dps = dps
             try:
-                tw = tuple(int(x) for x in twin(steps, rate, accel, acc))
-            except Exception:
-                tw = None
-            if exc is None and tw != got:
-                raise Infra(f'instrumented twin differs from the function on {c}: {tw} vs {got}')
-        path = None
-        d = drv[i]
-        if 'model' in d:
-            parts = d['model'].split(' ')
-            path = parts[3] if len(parts) > 3 else None
-            model_s = ' '.join(parts[:3])
-        in_dom = status in ('ok', 'degenerate')
-        ctx.count(c, path or status, nontrivial=(status == 'ok'))
-        if in_dom and (i < 400 and i % 40 == 0 or (i >= ncorp and len(ctx.samples) < 6 and status == 'ok')):
-            ctx.sample({'input': I, 'dps': dps, 'impl': impl_s, 'required': want, 'path': path})
-        if not in_dom:
-            # differences outside the property's domain are logged only
-            if 'gen' in d and exc is None and d['gen'] != '(' + impl_s + ')':
-                ctx.out_of_domain.append({'what': 'gen != impl (' + status + ')', 'input': I, 'impl': impl_s, 'gen': d['gen']})
-            continue
-        # ---- correspondence (in-domain): implementation = Gen(ieee) = Model ----
-        if 'gen' in d and d['gen'] != '(' + impl_s + ')':
-            ctx.disagree('Gen.calculate_lm(ieee) vs ebb_calc.calculate_lm', dict(I, dps=dps), impl_s, d['gen'])
-        if 'model' in d and model_s != impl_s:
-            ctx.disagree('C03.calculate_lm (model) vs ebb_calc.calculate_lm', I, impl_s, model_s)
-        # the Lean Spec as a second opinion on the oracle
-        for k in ('spec', 'specdef'):
-            if k in d and d[k] != ' '.join(str(x) for x in want):
-                raise Infra(f'Lean {k} and Python oracle differ on {c}: {d[k]} vs {want}')
-        # ---- property oracle ----
-        if exc is not None:
-            ctx.violate('calculate_lm raised on a valid move', I, impl_s, list(want), key='raised')
-            continue
-        if got != want:
-            cls = classify(mv, steps)
-            what = ('calculate_lm: reported (duration, position, accumulator) is not the first tick exhausting the budget '
-                    f'[{cls}]' if status == 'ok' else 'calculate_lm: request that cannot move does not report (0,0,0)')
-            ctx.violate(what, I, list(got), list(want), key='first-tick:' + cls)
-            continue
-        if status == 'degenerate':
+                got = ebb_calc.calculate_lm(steps, rate, accel, acc)
+                got = tuple(int(x) for x in got)
+                exc = None
+            except Exception as ex:
+                got, exc = None, ex
+            impl_s = 'raised ' + repr(exc) if exc else ' '.join(str(x) for x in got)
+            path = None
+            d = drv[i]
+            if 'model' in d:
+                parts = d['model'].split(' ')
+                path = parts[3] if len(parts) > 3 else None
+                model_s = ' '.join(parts[:3])
+            in_dom = status in ('ok', 'degenerate')
+            ctx.count(c, path or status, nontrivial=(status == 'ok'))
+            if in_dom and (i < 400 and i % 40 == 0 or (i >= ncorp and len(ctx.samples) < 6 and status == 'ok')):
+                ctx.sample({'input': I, 'dps': dps, 'impl': impl_s, 'required': want, 'path': path})
+            if not in_dom:
+                # differences outside the property's domain are logged only
+                if 'gen' in d and exc is None and d['gen'] != '(' + impl_s + ')':
+                    ctx.out_of_domain.append({'what': 'gen != impl (' + status + ')', 'input': I, 'impl': impl_s, 'gen': d['gen']})
+                continue
+            if status == 'ok' and abs(rate) <= ENV and abs(accel) <= ENV:
+                st['valid'].append(c)
+            # ---- correspondence (in-domain): implementation = Gen(ieee) = Model ----
+            if 'gen' in d and d['gen'] != '(' + impl_s + ')':
+                ctx.disagree('Gen.calculate_lm(ieee) vs ebb_calc.calculate_lm', dict(I, dps=dps), impl_s, d['gen'])
+            if 'model' in d and model_s != impl_s:
+                ctx.disagree('C03.calculate_lm (model) vs ebb_calc.calculate_lm', I, impl_s, model_s)
+            # the Lean Spec as a second opinion on the oracle
+            for k in ('spec', 'specdef'):
+                if k in d and d[k] != ' '.join(str(x) for x in want):
+                    raise Infra(f'Lean {k} and Python oracle differ on {c}: {d[k]} vs {want}')
+            # ---- property oracle ----
+            if exc is not None:
+                ctx.violate('calculate_lm raised on a valid move', I, impl_s, list(want), key='raised')
+                continue
+            if got != want:
+                cls = classify(mv, steps)
+                what = ('calculate_lm: reported (duration, position, accumulator) is not the first tick exhausting the budget '
+                        f'[{cls}]' if status == 'ok' else 'calculate_lm: request that cannot move does not report (0,0,0)')
+                ctx.violate(what, I, list(got), list(want), key='first-tick:' + cls)
+                continue
+            if status == 'degenerate':
+                if acc == 'clear':
+                    mpmath.mp.dps = dps
+                    tm = ebb_motion.moveTimeLM(rate, steps, accel)
+                    if tm != 0:
+                        ctx.violate('moveTimeLM: not 0 for a request that cannot move', I, tm, 0, key='moveTimeLM')
+                continue
+            # consequence clauses
+            t, pos, cf = got
+            if not 0 <= cf < P:
+                ctx.violate('calculate_lm: accumulator outside [0,2^31)', I, list(got), list(want), key='acc-range')
+            if t <= 2 ** 32:
+                mpmath.mp.dps = dps
+                fed = ebb_calc.move_dist_lt(mv.rate, mv.accel, t, acc)
+                st['n_feed'] += 1
+                if tuple(int(x) for x in fed) != (pos, cf):
+                    ctx.violate('feeding the reported duration to move_dist_lt does not reproduce (position, accumulator)',
+                                I, [list(got), list(fed)], [pos, cf], key='feeds-lt')
+            else:
+                st['n_skipfeed'] += 1
             if acc == 'clear':
                 mpmath.mp.dps = dps
                 tm = ebb_motion.moveTimeLM(rate, steps, accel)
-                if tm != 0:
-                    ctx.violate('moveTimeLM: not 0 for a request that cannot move', I, tm, 0, key='moveTimeLM')
-            continue
-        # consequence clauses
-        t, pos, cf = got
-        if not 0 <= cf < P:
-            ctx.violate('calculate_lm: accumulator outside [0,2^31)', I, list(got), list(want), key='acc-range')
-        if t <= 2 ** 32:
-            mpmath.mp.dps = dps
-            fed = ebb_calc.move_dist_lt(mv.rate, mv.accel, t, acc)
-            n_feed += 1
-            if tuple(int(x) for x in fed) != (pos, cf):
-                ctx.violate('feeding the reported duration to move_dist_lt does not reproduce (position, accumulator)',
-                            I, [list(got), list(fed)], [pos, cf], key='feeds-lt')
-        else:
-            n_skipfeed += 1
-        if acc == 'clear':
-            mpmath.mp.dps = dps
-            tm = ebb_motion.moveTimeLM(rate, steps, accel)
-            if tm != want[0]:
-                ctx.violate('moveTimeLM: not the first tick exhausting the budget', I, tm, want[0], key='moveTimeLM')
-            if 'gentime' in d and d['gentime'] != str(tm):
-                ctx.disagree('Gen.moveTimeLM(ieee) vs ebb_motion.moveTimeLM', dict(I, dps=dps), str(tm), d['gentime'])
-    mpmath.mp.dps = 15
+                if tm != want[0]:
+                    ctx.violate('moveTimeLM: not the first tick exhausting the budget', I, tm, want[0], key='moveTimeLM')
+                if 'gentime' in d and d['gentime'] != str(tm):
+                    ctx.disagree('Gen.moveTimeLM(ieee) vs ebb_motion.moveTimeLM', dict(I, dps=dps), str(tm), d['gentime'])
+        mpmath.mp.dps = 15
+
+    if not ctx.driver:
+        ctx.notes.append('driver unavailable: oracle runs on the implementation alone')
+    pipeline(cases, ncorp)
+
+    # ---- sitecov stream: boundary inputs for every comparison of the CURRENT source, through the same pipeline ----
+    if not SITECOV_OFF:
+        valid = st['valid']
+        seeds = rng.sample(valid, min(len(valid), 300))
+        sitecov.stream(ctx, 'calculate_lm', ebb_calc.calculate_lm, seeds, rerun=lambda cs: pipeline(cs, 0),
+                       moves=sitecov.Moves(domain=in_domain, lo={0: -P, 1: -ENV, 2: -ENV, 3: 0}, hi={0: P, 1: ENV, 2: ENV, 3: P - 1}),
+                       budget=8000)
+        mpmath.mp.dps = 15
+
     # model-path coverage: every feasible branch of the model must have received in-domain inputs
-    if ctx.driver:
+    if ctx.driver and not SITECOV_ONLY:
         want = ['zero-steps', 'zero-rate-accel', 'legacy-neg-rate']
         for br in ['const', 'norev', 'rev0', 'rev1-r1zero'] + [f'{b}:{t}' for b in ('budget-before-rev', 'rev-before-first-step', 'both-directions')
                                                                for t in ('tau1', 'tau2', 'tau3+')]:
@@ -683,11 +657,5 @@ def run(ctx):
         missing = [w for w in want if w not in have]
         if missing:
             raise Infra('model paths without any input: ' + ', '.join(missing))
-    if sites.info:
-        both = sum(1 for e in sites.info.values() if e[1] and e[2])
-        near = sum(1 for e in sites.info.values() if e[3] is not None and e[3] <= 1)
-        onesided = [e[0] for e in sites.info.values() if not (e[1] and e[2])]
-        ctx.notes.append(f'impl_sites (comparisons of the current calculate_lm source, in-domain inputs only): {len(sites.info)} sites, '
-                         f'{both} driven to both outcomes, {near} reached |lhs-rhs| <= 1; one-sided: {onesided}')
-    ctx.notes.append(f'oracle self-check: closed form/bisection = tick-by-tick simulation on {bf_checked} cases '
-                     f'({bf_long} with first tick > {BF_CAP}); move_dist_lt fed on {n_feed} cases ({n_skipfeed} skipped: duration > 2^32 is outside the domain of the timed-move predictor); corpus cases: {ncorp}')
+    ctx.notes.append(f'oracle self-check: closed form/bisection = tick-by-tick simulation on {st["bf_checked"]} cases '
+                     f'({st["bf_long"]} with first tick > {BF_CAP}); move_dist_lt fed on {st["n_feed"]} cases ({st["n_skipfeed"]} skipped: duration > 2^32 is outside the domain of the timed-move predictor); corpus cases: {ncorp}')
